@@ -236,3 +236,45 @@ def c07(run):
                         "supply-bound function from Supply.tla (reservation parameters alone)"]
     trace_stage(run, "ros2", "ros2", nontrivial=lambda e: e["out"].get("ok", -1) != 0,
                 keyfn=lambda e: {k: v for k, v in e["in"].items() if k != "tags"})
+
+
+ROS_ASSUME = ["executor semantics A1-A5 of spec/Ros2Exec.tla (timers live and first, ready set refreshed only when empty, non-preemptive "
+              "callbacks, successor activated at completion, reservation: exactly Q units per period before the deadline, any placement)",
+              "callbacks without a claim do not age and hold at most one pending instance",
+              "magnitudes: periods <= 7 (9), WCET <= 2 (3), reservation period <= 4 (6), bounds <= 22 (40)"]
+
+
+def _ros_equational(run, kinds):
+    """second, independent path: the same analyses against their definitional evaluation (as in C07)"""
+    run.assumptions.append("second stage: trace validation of the same analyses against Ros2Analyses.tla (as in C07)")
+    trace_stage(run, "equational", "ros2", extra=["--kinds", kinds], ignore_checks=("returns",),
+                nontrivial=lambda e: e["out"].get("ok", -1) != 0,
+                keyfn=lambda e: {k: v for k, v in e["in"].items() if k != "tags"})
+
+
+@check("C04")
+def c04(run):
+    run.cov["rule"] = ("workloads: 0-2 timers, 1-2 polled callbacks and (half of the time) one chain of 2 (thorough 2-3) polled callbacks, "
+                       "random polled priority order, periodic / sporadic+jitter / delta-min arrivals, dedicated / periodic / constrained "
+                       "reservations; bounds from rta_timer (hp timers, blocking = max lower/polled WCET - 1), rta_polling_point_callback "
+                       "(all other callbacks, chains as chain-level RBFs) and rta_processing_chain; TLC explores every execution of the "
+                       "executor model (arrivals, execution times, budget placements); second batch: event sources as FIFO servers under a "
+                       "reservation (Sched.tla) against rta_event_source; non-trivial = some bound exceeds the own WCET")
+    run.assumptions += ROS_ASSUME
+    world_stage(run, "executor", "ros2sys", "MCRos2Exec.tla", "MCRos2Exec.cfg", slim=("id", "supply", "cbs"),
+                extra=["--family", "ecrts19", "--nsys", _nsys(run, 1400, 12000)])
+    world_stage(run, "event-source", "systems", "MCSched.tla", "MCSched.cfg",
+                extra=["--families", "es", "--nsys", _nsys(run, 250, 3000)])
+    _ros_equational(run, "0,1,2,3")
+
+
+@check("C05")
+def c05(run):
+    run.cov["rule"] = ("workloads: 2-3 callbacks (timer / polled with known priority / polled with unknown priority) with external arrival "
+                       "curves; for rr and for bw separately the bound vector is obtained by iterating the singleton-subchain analysis "
+                       "upwards from the WCETs until it reproduces itself; TLC explores every execution of the executor model for every "
+                       "priority order consistent with the known priorities; non-trivial = some bound exceeds the own WCET")
+    run.assumptions += ROS_ASSUME
+    world_stage(run, "executor", "ros2sys", "MCRos2Exec.tla", "MCRos2Exec.cfg", slim=("id", "supply", "cbs"),
+                extra=["--family", "rtss21", "--nsys", _nsys(run, 900, 9000)])
+    _ros_equational(run, "4,5")
